@@ -330,6 +330,8 @@ def run(ctx):
         part.violation(f"{clause}:empty:{query}", msg, {"kind": "boxes", "boxes": [],
                                                         "query": list(query) if query else None,
                             "asked": [list(q) for q in asked] if asked else None})
+    from .. import callforms              # pylint: disable=import-outside-toplevel
+    part.merge(callforms.explore("C14"))
     cnt = part.counters
     coverage = {
         "states": cnt.get("collections", 0),
@@ -358,6 +360,9 @@ def run(ctx):
 
 
 def replay(case):
+    if case.get("kind") == "callform":
+        from .. import callforms          # pylint: disable=import-outside-toplevel
+        return callforms.replay(case)
     if case.get("kind") == "huge":
         boxes = [b for name, b, _n in huge_collections(True)
                  if name == case["name"] and len(b) == case["size"]][0]
